@@ -84,7 +84,7 @@ def cases(rng, tier):
 	yield ('el', ('generic', u'v', ((u'a', u'say "hi"'),)))
 	yield ('el', ('generic', u'v', ((u'a', u'x;y,z=w'), (u'b', u'été'), (u'c', u"l'été.txt"))))
 	yield ('list', (('generic', u'v', ((u'a', u'1,2'),)), ('generic', u'w', ((u'b', u'x\\'),))))
-	n = 120000 if tier == 'thorough' else 4000
+	n = 120000 if tier == 'thorough' else 12000
 	for _ in range(n):
 		kind = rng.choice(KINDS)
 		yield ('el', gen_element(rng, kind))
